@@ -642,6 +642,23 @@ def _t(x):
     return T(_obj(A(x)).T)
 
 
+@handler("diagonal")
+def _diagonal(x, offset=0, dim1=0, dim2=1):
+    return T(np.diagonal(_obj(A(x)), offset=offset, axis1=dim1, axis2=dim2).copy())
+
+
+@handler("diag")
+def _diag(x, diagonal=0):
+    a = _obj(A(x))
+    if a.ndim == 1:
+        n = a.shape[0] + abs(diagonal)
+        out = lift(np.zeros((n, n))).view(np.ndarray)
+        for i in range(a.shape[0]):
+            out[(i, i + diagonal) if diagonal >= 0 else (i - diagonal, i)] = a[i]
+        return T(out)
+    return T(np.diagonal(a, offset=diagonal).copy())
+
+
 @handler("movedim", "moveaxis")
 def _movedim(x, s, d):
     return T(np.moveaxis(_obj(A(x)), s, d))
